@@ -30,7 +30,7 @@ PROPS["C20"] = dict(
     rule=("seeded random trees (depth <= 3 quick / 5 thorough, fan-out <= 3, 0-3 fields per map, 0-2 messages, nil vs empty maps, all three "
           "constructors, field/child names from a tiny alphabet with dotted names so that flat keys collide across routes) x 1-6 reads each; "
           "pairs for AddErrorToValidation over nil / typed-nil / pointer error / value error / ValidationError / wrapped ValidationError incl. a "
-          "biased stream with colliding child names; one tree in five is a chain of 3-8 child names ending in a node with 2-4 message-carrying children. distinct_nontrivial = distinct cases (hashed) with children and >= 2 reads, or an add pair."),
+          "biased stream with colliding child names; one tree in five is a chain of 3-8 child names ending in a node with 2-4 message-carrying children; 40 (quick) / 2000 (thorough) fan-outs: an error whose list for one field grew message by message (1-9) is merged into 2-4 others, each of which then gets a message of its own for that field — every result must hold all of them and the common error stays as it was. distinct_nontrivial = distinct cases (hashed) with children and >= 2 reads, or an add pair."),
     level_text=("Proof: flat map = supplied messages (multiset of (dotted key, message), errors and warnings apart), Error() renders each once, reads leave "
                 "the receiver unchanged for every read sequence, AddErrorToValidation contains every message of both arguments — Lean theorems over all "
                 "trees (nested inductive, any depth/fan-out, nil or non-nil maps); tied to validationError.go by differential runs on random trees."),
@@ -86,11 +86,13 @@ PROPS["C02"] = dict(
     trusted_base=_CACHE_TB, assumptions=_CACHE_ASSUME,
 )
 PROPS["C03"] = dict(
-    components=[dict(name="cache", gen_args={"C03": ["profile=C03"]}, shrink_lists=False)],
+    components=[dict(name="cache", gen_args={"C03": ["profile=C03"]}, shrink_lists=False),
+                dict(name="cacheconc", gen_args={"C03": ["profile=C03"]}, shrink=False, independent_lines=True)],
     clause_prefixes=["C03."],
     diff_filter=lambda l: bool(_fields(l) & {"keys", "has", "len", "panic", "protocol"}),
     rule=("Set/Delete/Sweep/Clear histories (no Resize) biased to overflow by a few keys, updates of old keys and delete-then-re-set; the monitor keeps its own insertion "
-          "stamps from the implementation's answers and checks every ordered pair after every op. distinct_nontrivial as C01."),
+          "stamps from the implementation's answers and checks every ordered pair after every op. Plus 4 (quick) / 32 (thorough) renew rounds on caches of 20000-90000 entries with large partitions: an overflowing Set lets the "
+          "cache's own background sweep evict the oldest partition, the evicted keys are re-inserted the moment the eviction is visible, and at rest all of them must be present. distinct_nontrivial as C01."),
     level_text=("Proof: ghost-stamped cache; FIFO theorem over all histories (stamps monotone along partitions, sweep removes a prefix), update does not renew / re-insert renews, "
                 "no eviction while insertions <= Capacity, one overflow evicts at most one partition (<= pc entries)."),
     level_note="Trusted as C01. 'documented number of partitions' is read as what the documented formula evaluates to in Go (see DESIGN §10).",
@@ -195,9 +197,9 @@ PROPS["C08"] = dict(
     shape=True, extra_modules=["TV.ShapeOK.Cache"],
     components=[dict(name="cacheconc", race=True, shrink=False, independent_lines=True),
                 dict(name="cache", gen_args={"C08": ["profile=C01"]}, shrink_lists=False, tiers=["thorough"])],
-    clause_prefixes=["C08.", "C01."],
+    clause_prefixes=["C08.", "C01.", "C03.reinsert_renews"],
     rule=("race-detector stress, each round in its own process: (a) fill — 16 writers insert exactly Capacity() distinct keys into a capacity-64 cache, nothing may be missing; (b) mix — G in {2,4,8,16} goroutines x 50-400 "
-          "Set/Get/Contains/Delete/Len/Keys/Values/Sweep (+ Clear/Resize in half of the rounds) on capacities {1,4,9,64}, sweep frequency 1 ms or 1 h; checked: every Get value was Set for that key, views consistent after "
+          "Set/Get/Contains/Delete/Len/Keys/Values/Sweep (+ Clear/Resize in half of the rounds) on capacities {1,4,9,64}, sweep frequency 1 ms or 1 h; (c) renew — as in C03: keys evicted by the cache's own background sweep are re-inserted at once and must be present at rest; checked: every Get value was Set for that key, views consistent after "
           "quiescence + Sweep, single-writer keys hold the writer's last value or are absent, no panic, no hang (30 s watchdog), no race report, the sweeper goroutine is gone within 1 s of cancel. "
           "distinct_nontrivial = distinct stress configurations."),
     level_text=("Proof of the lifting theorem: with every exported method one section of the cache-wide RW lock (shape facts regenerated from fifoMapCache.go and proved by `decide`), the concurrent cache is linearizable to the "
